@@ -63,12 +63,12 @@ class Ref:
 
 
 class ModuleInfo:
-    def __init__(self, repo: "Repo", path: Path, name: str):
+    def __init__(self, repo: "Repo", path: Path, name: str, source: Optional[str] = None, rel: Optional[str] = None):
         self.repo = repo
         self.path = path
         self.name = name  # dotted, e.g. adaptix._internal.morphing.concrete_provider
-        self.rel = str(path.relative_to(repo.src_root))  # adaptix/_internal/...
-        self.source = path.read_text(encoding="utf-8")
+        self.rel = rel if rel is not None else str(path.relative_to(repo.src_root))  # adaptix/_internal/...
+        self.source = path.read_text(encoding="utf-8") if source is None else source
         try:
             self.tree = ast.parse(self.source, filename=str(path))
         except SyntaxError as e:  # pragma: no cover
@@ -208,6 +208,11 @@ class Repo:
             self.modules[name] = mi
             self.by_rel[str(rel)] = mi
         self._mro_cache: Dict[str, List[ClassInfo]] = {}
+
+    def synthetic_module(self, name: str, source: str) -> ModuleInfo:
+        """A module that exists only as text (generated program + prelude); not registered in the index."""
+        return ModuleInfo(self, Path(f"<generated {name}>"), f"{PKG}._generated.{name}", source=source,
+                          rel=f"generated:{name}")
 
     # -- lookup
     def mod(self, short: str) -> ModuleInfo:
